@@ -1,3 +1,4 @@
+import StrumModel.Collect
 import StrumModel.FromStr
 /-
 Line protocol shared by the Rust harness and the Lean driver (see DESIGN.md §4.2).
@@ -145,6 +146,32 @@ def decodeVariant (toks : List String) : Option Variant := do
   pure { ident := ident, fields := fields, discr := discr, serialize := ser, toStr := ts,
          disabled := dis, isDefault := dflt, transparent := tr, ci := ci, defaultWith := dw,
          message := msg, detailed := det, docs := docs, props := props }
+
+/-- one item of a `#[strum(..)]` list as written: `ser~x..`, `ts~x..`, `msg~x..`, `det~x..`, `dw~x..`, `ci~0|1`, `dis`, `def`,
+    `tr`, `props~k:t:v,..` -/
+def decodeVItem (s : String) : Option VItem :=
+  match s.splitOn "~" with
+  | ["dis"] => some .disabled
+  | ["def"] => some .default
+  | ["tr"] => some .transparent
+  | ["ser", v] => (decodeStr v).map .serialize
+  | ["ts", v] => (decodeStr v).map .toStr
+  | ["msg", v] => (decodeStr v).map .message
+  | ["det", v] => (decodeStr v).map .detailed
+  | ["dw", v] => (decodeStr v).map .defaultWith
+  | ["ci", v] => (decodeBool v).map .ci
+  | ["props", v] => (decodeProps v).map .props
+  | _ => none
+
+/-- `rawvariant <id> ident=.. kind=.. discr=.. doc=.. attrs=g1|g2|..` (items of a group separated by `;`) -/
+def decodeRawVariant (toks : List String) : Option RawVariant := do
+  let ident ← decodeStr (← kv toks "ident")
+  let fields ← decodeFields (← kv toks "kind")
+  let discr ← decodeOptInt (← kv toks "discr")
+  let docs ← decodeList (← kv toks "doc")
+  let a ← kv toks "attrs"
+  let attrs ← if a = "-" then some [] else (a.splitOn "|").mapM (fun g => (g.splitOn ";").mapM decodeVItem)
+  pure { ident := ident, fields := fields, discr := discr, docs := docs, attrs := attrs }
 
 def showFieldInit : FieldInit → String
   | .dflt => "D"
